@@ -19,9 +19,9 @@ from ..rules.api import ext_aliases
 TECHNIQUE = "R-RNG: package-wide classification of every random-producing call site by the resolved library path (global numpy/torch generator vs. anything else), who-may-seed, R-ORDER on the seeding call chain, taint + control-dependence analysis of RNG-consuming calls against parallelisation settings"
 
 NP_CONSUMERS = {"rand", "randn", "random", "random_sample", "uniform", "normal", "choice", "permutation", "shuffle", "randint", "multinomial", "multivariate_normal", "exponential", "gamma", "beta", "standard_normal", "chisquare", "binomial", "poisson", "sample", "ranf", "dirichlet", "laplace", "lognormal", "triangular", "vonmises", "power"}
-NP_FORBIDDEN = {"default_rng", "RandomState", "Generator", "SeedSequence", "PCG64", "MT19937", "Philox", "SFC64", "BitGenerator", "get_state", "set_state"}
+NP_FORBIDDEN = {"default_rng", "RandomState", "Generator", "SeedSequence", "PCG64", "MT19937", "Philox", "SFC64", "BitGenerator"}
 TORCH_CONSUMERS = {"rand", "randn", "randint", "randperm", "normal", "multinomial", "bernoulli", "rand_like", "randn_like", "randint_like", "poisson"}
-TORCH_FORBIDDEN = {"Generator", "seed", "initial_seed", "set_rng_state", "get_rng_state", "default_generator"}
+TORCH_FORBIDDEN = {"Generator", "seed", "initial_seed", "default_generator"}
 STDLIB_FORBIDDEN_MODULES = {"random", "secrets", "uuid"}
 TAINT_SOURCES = {"pool", "n_pool", "likelihood_chunksize", "parallelise_prior"}
 
@@ -61,6 +61,8 @@ def classify_call(c, aliases):
         fn = full.split(".")[2]
         if fn == "seed":
             return ("seed", full)
+        if fn in ("get_state", "set_state"):
+            return None  # saving / restoring the state of the global generator (no draw, no second generator)
         if fn in NP_FORBIDDEN:
             return ("forbidden", f"{full}: a generator other than numpy's global one")
         if fn in NP_CONSUMERS:
@@ -70,6 +72,8 @@ def classify_call(c, aliases):
         fn = full.split(".")[1] if len(full.split(".")) == 2 else None
         if full == "torch.manual_seed":
             return ("seed", full)
+        if full in ("torch.get_rng_state", "torch.set_rng_state", "torch.random.get_rng_state", "torch.random.set_rng_state"):
+            return None  # state of the global generator
         if fn in TORCH_FORBIDDEN or full.startswith("torch.random.") or full.startswith("torch.cuda.manual_seed"):
             return ("forbidden", f"{full}: non-global / re-seeding torch generator API")
         if fn in TORCH_CONSUMERS:
@@ -176,6 +180,7 @@ def run(ctx):
     ba = FA(bi)
     cc = ba.find_calls("self.configure_random_seed")
     ctx.ob("R-ORDER", "C14.2", bi, "the base constructor seeds on every path with the user's seed", len(cc) == 1 and ba.on_every_normal_path(cc[0][0]) and src(cc[0][1].args[0]) == "seed", "")
+    seed_once_rule(ctx, "C14.2")
     rngfns = rng_consumers(prog, g, sites)
     ctx.extra["functions_that_can_consume_randomness"] = len(rngfns)
     # in each sampler constructor: super().__init__ (seeding) dominates every later RNG-consuming call
@@ -263,6 +268,21 @@ def run(ctx):
     ctx.ob("R-RNG", "C14.4", "nessai", "taint / control-dependence analysis ran over every RNG-consuming call and property read", True, f"{n_checked} consuming sites checked against tainted attributes {sorted(tainted)}")
     ctx.require(n_checked >= 60, f"only {n_checked} RNG-consuming sites found")
     ctx.assumptions += ["the user's likelihood and prior are deterministic and consume no randomness (premise of the property)", "torch/glasflow distribution sampling draws from torch's global generator", "bit identity itself, fork/pool behaviour and BLAS/torch thread non-determinism are not decided"]
+
+
+def seed_once_rule(ctx, clause):
+    """Seeding happens once, when the sampler is constructed: a second call of configure_random_seed (on resume, say)
+    rewinds both global generators to the start of the stream, so every resumed segment replays the same draws - pools
+    that were already consumed are drawn again and their points accepted a second time (shared by C14.2, C13.6, C12.8)."""
+    prog = ctx.prog
+    bi = ctx.fn(tables.BASE + ".__init__")
+    n = 0
+    for f_ in prog.all_functions:
+        for c_ in walk_no_nested(f_.node):
+            if isinstance(c_, ast.Call) and isinstance(c_.func, ast.Attribute) and c_.func.attr == "configure_random_seed":
+                n += 1
+                ctx.ob("R-CALLERS", clause, f_, "configure_random_seed is called only from the base constructor (never on the resume path or mid-run)", f_ is bi, f"`{src(c_)}`", node=c_)
+    ctx.require(n >= 1, "no call of configure_random_seed found")
 
 
 def rng_consumers(prog, g, sites):
